@@ -31,6 +31,7 @@ type xl struct {
 	opaque   map[string]string
 	opaquePs []xlParam
 	touched  map[string]bool // flattened-receiver / opaque parameters referenced (loops capture them)
+	usesRec  bool            // a self-call was translated (translate_rec.go)
 	// translate_dom.go
 	optVars                      map[types.Object]bool // variables of Lean type `Option …` (may be nil)
 	paramObjs                    map[types.Object]bool
@@ -205,6 +206,11 @@ func (x *xl) calleeMonadic(c *ast.CallExpr) bool {
 		if b, ok := x.p.info.Uses[id].(*types.Builtin); ok && b.Name() == "panic" {
 			return true
 		}
+		if b, ok := x.p.info.Uses[id].(*types.Builtin); ok && b.Name() == "make" && len(c.Args) == 2 {
+			if tv := x.p.info.Types[c.Args[1]]; tv.Value == nil || constant.Sign(tv.Value) != 0 {
+				return true
+			}
+		}
 	}
 	fn := x.calleeFunc(c)
 	if fn == nil {
@@ -212,6 +218,9 @@ func (x *xl) calleeMonadic(c *ast.CallExpr) bool {
 	}
 	if d := x.lookupDone(fn); d != nil {
 		return d.monadic
+	}
+	if x.f.Rec && fn == x.p.info.Defs[x.fd.Name] {
+		return true
 	}
 	for _, o := range x.f.Opaque {
 		if o == funcKey(fn) {
@@ -298,6 +307,9 @@ func (x *xl) expr(e ast.Expr) ([]string, string, error) {
 				return nil, "", x.errf(e, "field identifier %s", y.Name)
 			}
 			if o.Parent() == o.Pkg().Scope() {
+				if x.pkgVarEmptySlice(o) {
+					return nil, "[]", nil
+				}
 				return nil, "", x.errf(e, "package-level variable %s", y.Name)
 			}
 			if x.f.Flatten && o == x.recv {
@@ -316,6 +328,16 @@ func (x *xl) expr(e ast.Expr) ([]string, string, error) {
 			return nil, "", err
 		}
 		switch y.Op {
+		case token.AND:
+			// &x of a local variable: pointer identity is not modelled (translate_rec.go)
+			if id, ok := y.X.(*ast.Ident); ok {
+				if v, ok := info.Uses[id].(*types.Var); ok && !v.IsField() && v.Parent() != v.Pkg().Scope() {
+					switch v.Type().Underlying().(type) {
+					case *types.Basic, *types.Slice: // slices have value semantics in the model
+						return b, "(some " + s + ")", nil
+					}
+				}
+			}
 		case token.NOT:
 			return b, "(!" + s + ")", nil
 		case token.SUB:
@@ -796,7 +818,20 @@ func (x *xl) call(c *ast.CallExpr) ([]string, string, error) {
 						return nil, "[]", nil
 					}
 				}
-				return nil, "", x.errf(c, "make other than make([]T, 0)")
+				if sl, ok := x.typeOf(c).Underlying().(*types.Slice); ok && len(c.Args) == 2 {
+					// make([]T, n): n zero values, panic for n < 0 (GoPrelude makeL)
+					z, err := x.zeroOf(c, sl.Elem())
+					if err != nil {
+						return nil, "", err
+					}
+					bs, n, err := x.expr(c.Args[1])
+					if err != nil {
+						return nil, "", err
+					}
+					bs, t := x.bindTmp(bs, fmt.Sprintf("Go.makeL %s %s", z, n))
+					return bs, t, nil
+				}
+				return nil, "", x.errf(c, "make other than make([]T, n)")
 			case "panic":
 				// the argument is evaluated first (it may itself panic), its value is not modelled
 				bs, _, err := x.exprs(c.Args)
@@ -867,7 +902,13 @@ func (x *xl) call(c *ast.CallExpr) ([]string, string, error) {
 	}
 	fn := x.calleeFunc(c)
 	if fn == nil {
+		if bs, v, ok, err := x.funcValueCall(c); ok {
+			return bs, v, err
+		}
 		return nil, "", x.errf(c, "call of a non-function")
+	}
+	if bs, v, ok, err := x.flatCall(c, fn); ok {
+		return bs, v, err
 	}
 	// standard library
 	if fn.Pkg() != nil && !strings.HasPrefix(fn.Pkg().Path(), xlModule) {
